@@ -15,9 +15,12 @@ Local Open Scope N_scope.
 
 (* invert `H : (assert c ;; k) = Some y` / `H : (x <- a ;; k) = Some y` repeatedly *)
 Ltac inv_opt H :=
-  repeat first
-   [ let Hc := fresh "Hc" in apply if_some_inv in H; destruct H as [Hc H]
-   | let x := fresh "x" in let Hx := fresh "Hx" in apply bind_some_inv in H; destruct H as [x [Hx H]] ].
+  repeat match type of H with
+  | (if _ then _ else None) = Some _ =>
+      let Hc := fresh "Hc" in apply if_some_inv in H; destruct H as [Hc H]
+  | match _ with Some _ => _ | None => None end = Some _ =>
+      let x := fresh "x" in let Hx := fresh "Hx" in apply bind_some_inv in H; destruct H as [x [Hx H]]
+  end.
 
 Section Rules.
   Variable E : Env.
@@ -43,8 +46,8 @@ Section Rules.
     unfold process_block_header, header_after. cbv zeta. split.
     - intros H. inv_opt H. simpl_set_in Hx0.
       apply N.eqb_eq in Hc. apply N.ltb_lt in Hc0. apply N.eqb_eq in Hc1. apply bytes_eqb_eq in Hc2.
-      apply negb_true_iff in Hc3. injection H as <-. subst x.
-      repeat split; try assumption. exists x0. split; assumption.
+      apply negb_true_iff in Hc3. apply some_inj in H. subst x st'.
+      conjs; try assumption; [|reflexivity]. exists x0. split; assumption.
     - intros (H1 & H2 & H3 & H4 & (p & H5 & H6) & ->).
       apply N.eqb_eq in H1. apply N.ltb_lt in H2. rewrite H1, H2, H3, N.eqb_refl.
       apply bytes_eqb_eq in H4. rewrite H4.
@@ -65,4 +68,979 @@ Section Rules.
     destruct H as [H|[H|[H|[H|H]]]]; [contradiction|lia|contradiction|contradiction|].
     specialize (H p H5). congruence.
   Qed.
+
+  (* ================= voluntary exit ================= *)
+  (* the signature domain of an exit: the state's fork version at exit.epoch before Deneb; the fixed CAPELLA
+     version from Deneb on (EIP-7044) *)
+  Definition exit_domain (st : BeaconState) (ve_epoch : N) : bytes :=
+    if fork_ge f Deneb
+    then compute_domain E DOMAIN_VOLUNTARY_EXIT (CAPELLA_FORK_VERSION c) (genesis_validators_root st)
+    else get_domain E st DOMAIN_VOLUNTARY_EXIT ve_epoch.
+
+  Theorem process_voluntary_exit_iff st sve st' :
+    let ve := vfield sve 0 in
+    let ve_epoch := vuint (vfield ve 0) in
+    let vi := vuint (vfield ve 1) in
+    let ce := get_current_epoch E st in
+    process_voluntary_exit E f st sve = Some st' <->
+    exists v,
+      nthN (validators st) vi = Some v
+      /\ (v_activation_epoch v <= ce /\ ce < v_exit_epoch v)                  (* active *)
+      /\ v_exit_epoch v = FAR_FUTURE_EPOCH                                    (* exit not initiated *)
+      /\ ve_epoch <= ce                                                       (* exit epoch reached *)
+      /\ v_activation_epoch v + SHARD_COMMITTEE_PERIOD c <= ce                (* aged *)
+      /\ bls_verify E (v_pubkey v) (compute_signing_root E (htr VoluntaryExitT ve) (exit_domain st ve_epoch))
+                    (vbytes (vfield sve 1)) = true
+      /\ initiate_validator_exit E st vi = Some st'.
+  Proof.
+    cbv zeta. unfold process_voluntary_exit, exit_domain, is_active_validator. cbv zeta. fold c. split.
+    - intros H. inv_opt H. exists x.
+      apply andb_true_iff in Hc. destruct Hc as [Ha Hb].
+      apply N.leb_le in Ha. apply N.ltb_lt in Hb. apply N.eqb_eq in Hc0. apply N.leb_le in Hc1. apply N.leb_le in Hc2.
+      conjs; assumption.
+    - intros (v & H1 & [H2 H2'] & H3 & H4 & H5 & H6 & H7).
+      rewrite H1. apply N.leb_le in H2. apply N.ltb_lt in H2'. rewrite H2, H2'. cbn [andb].
+      apply N.eqb_eq in H3. rewrite H3. apply N.leb_le in H4. rewrite H4. apply N.leb_le in H5. rewrite H5.
+      rewrite H6. exact H7.
+  Qed.
+
+  (* what initiate_validator_exit does to a validator that has not initiated an exit *)
+  Definition exit_queue_epoch (st : BeaconState) : N :=
+    let exit_epochs := filter (fun e => negb (e =? FAR_FUTURE_EPOCH)) (map v_exit_epoch (validators st)) in
+    let q := maxl exit_epochs (compute_activation_exit_epoch E (get_current_epoch E st)) in
+    let churn := N.of_nat (length (filter (fun w => v_exit_epoch w =? q) (validators st))) in
+    if get_validator_churn_limit E st <=? churn then q + 1 else q.
+  Lemma initiate_validator_exit_fresh st i v :
+    nthN (validators st) i = Some v -> v_exit_epoch v = FAR_FUTURE_EPOCH ->
+    initiate_validator_exit E st i =
+    Some (st <| validators := updN (validators st) i
+              (fun v => v <| v_exit_epoch := exit_queue_epoch st |>
+                          <| v_withdrawable_epoch := exit_queue_epoch st + MIN_VALIDATOR_WITHDRAWABILITY_DELAY c |>) |>).
+  Proof.
+    intros H1 H2. unfold initiate_validator_exit. rewrite H1, H2. reflexivity.
+  Qed.
+  Lemma initiate_validator_exit_already st i v :
+    nthN (validators st) i = Some v -> v_exit_epoch v <> FAR_FUTURE_EPOCH -> initiate_validator_exit E st i = Some st.
+  Proof.
+    intros H1 H2. unfold initiate_validator_exit. rewrite H1. apply N.eqb_neq in H2. rewrite H2. reflexivity.
+  Qed.
+
+  Corollary process_voluntary_exit_rejects st sve :
+    let ve := vfield sve 0 in
+    let ve_epoch := vuint (vfield ve 0) in
+    let vi := vuint (vfield ve 1) in
+    let ce := get_current_epoch E st in
+    (forall v, nthN (validators st) vi = Some v ->
+        ce < v_activation_epoch v \/ v_exit_epoch v <= ce              (* not active *)
+        \/ v_exit_epoch v <> FAR_FUTURE_EPOCH                          (* duplicated / already exiting *)
+        \/ ce < ve_epoch                                               (* exit epoch in the future *)
+        \/ ce < v_activation_epoch v + SHARD_COMMITTEE_PERIOD c        (* insufficiently aged *)
+        \/ bls_verify E (v_pubkey v) (compute_signing_root E (htr VoluntaryExitT ve) (exit_domain st ve_epoch))
+                      (vbytes (vfield sve 1)) = false) ->              (* wrong key / domain / fork version / chain *)
+    process_voluntary_exit E f st sve = None.
+  Proof.
+    cbv zeta. intros H. destruct (process_voluntary_exit E f st sve) as [st'|] eqn:Hp; [|reflexivity]. exfalso.
+    apply process_voluntary_exit_iff in Hp. destruct Hp as (v & H1 & [H2 H2'] & H3 & H4 & H5 & H6 & _).
+    destruct (H v H1) as [H0|[H0|[H0|[H0|[H0|H0]]]]]; try lia; congruence.
+  Qed.
+
+  (* ================= proposer slashing ================= *)
+  Definition header_sig_ok (st : BeaconState) (pk : bytes) (sh : value) : Prop :=
+    let h := vfield sh 0 in
+    bls_verify E pk
+      (compute_signing_root E (htr BeaconBlockHeaderT h)
+         (get_domain E st DOMAIN_BEACON_PROPOSER (compute_epoch_at_slot E (vuint (vfield h 0)))))
+      (vbytes (vfield sh 1)) = true.
+
+  Theorem process_proposer_slashing_iff st ps st' :
+    let sh1 := vfield ps 0 in let sh2 := vfield ps 1 in
+    let h1 := vfield sh1 0 in let h2 := vfield sh2 0 in
+    let pi := vuint (vfield h1 1) in
+    process_proposer_slashing E f st ps = Some st' <->
+    ( vuint (vfield h1 0) = vuint (vfield h2 0)                               (* same slot *)
+      /\ vuint (vfield h1 1) = vuint (vfield h2 1)                            (* same proposer *)
+      /\ h1 <> h2                                                             (* different headers *)
+      /\ exists proposer,
+           nthN (validators st) pi = Some proposer
+           /\ is_slashable_validator proposer (get_current_epoch E st) = true
+           /\ header_sig_ok st (v_pubkey proposer) sh1
+           /\ header_sig_ok st (v_pubkey proposer) sh2
+           /\ slash_validator E f st pi None = Some st' ).
+  Proof.
+    cbv zeta. unfold process_proposer_slashing, header_sig_ok. cbv zeta. split.
+    - intros H. inv_opt H.
+      apply N.eqb_eq in Hc. apply N.eqb_eq in Hc0. apply negb_true_iff in Hc1. apply value_eqb_neq in Hc1.
+      conjs; try assumption. exists x. conjs; assumption.
+    - intros (H1 & H2 & H3 & p & H4 & H5 & H6 & H7 & H8).
+      apply N.eqb_eq in H1. apply N.eqb_eq in H2. apply value_eqb_neq in H3.
+      rewrite H1, H2, H3, H4, H5, H6, H7. exact H8.
+  Qed.
+
+  Lemma is_slashable_validator_iff v e :
+    is_slashable_validator v e = true <-> v_slashed v = false /\ v_activation_epoch v <= e /\ e < v_withdrawable_epoch v.
+  Proof.
+    unfold is_slashable_validator. rewrite !andb_true_iff, negb_true_iff, N.leb_le, N.ltb_lt. tauto.
+  Qed.
+
+  (* ================= indexed attestations / attester slashing ================= *)
+  Theorem is_valid_indexed_attestation_iff st ia :
+    let idx := map vuint (vseq (vfield ia 0)) in
+    let data := vfield ia 1 in
+    is_valid_indexed_attestation E st ia = true <->
+    ( idx <> [] /\ strictly_sorted idx = true
+      /\ exists pubkeys,
+           all_some (map (fun i => option_map v_pubkey (nthN (validators st) i)) idx) = Some pubkeys
+           /\ bls_fast_aggregate_verify E pubkeys
+                (compute_signing_root E (htr AttestationDataT data)
+                   (get_domain E st DOMAIN_BEACON_ATTESTER (cp_epoch (ad_target data))))
+                (vbytes (vfield ia 2)) = true ).
+  Proof.
+    cbv zeta. unfold is_valid_indexed_attestation. cbv zeta.
+    set (idx := map vuint (vseq (vfield ia 0))).
+    destruct idx as [|i0 idx'] eqn:Hidx.
+    - cbn [length N.of_nat N.eqb orb]. split; [discriminate|]. intros [H _]. congruence.
+    - assert (Hl : (N.of_nat (length (i0 :: idx')) =? 0) = false) by (apply N.eqb_neq; cbn [length]; lia).
+      rewrite Hl. cbn [orb].
+      destruct (strictly_sorted (i0 :: idx')) eqn:Hs; cbn [negb].
+      + destruct (all_some _) as [pks|] eqn:Hpk.
+        * split.
+          -- intros H. conjs; [discriminate|reflexivity|]. exists pks. split; [reflexivity|exact H].
+          -- intros (_ & _ & pks' & Hp & Hv). injection Hp as <-. exact Hv.
+        * split; [discriminate|]. intros (_ & _ & pks' & Hp & _). discriminate.
+      + split; [discriminate|]. intros (_ & Hf & _). discriminate.
+  Qed.
+
+  Lemma is_slashable_attestation_data_iff d1 d2 :
+    is_slashable_attestation_data d1 d2 = true <->
+    ( (d1 <> d2 /\ cp_epoch (ad_target d1) = cp_epoch (ad_target d2))                               (* double vote *)
+      \/ (cp_epoch (ad_source d1) < cp_epoch (ad_source d2) /\ cp_epoch (ad_target d2) < cp_epoch (ad_target d1)) ). (* surround *)
+  Proof.
+    unfold is_slashable_attestation_data.
+    rewrite orb_true_iff, !andb_true_iff, negb_true_iff, value_eqb_neq, N.eqb_eq, !N.ltb_lt. tauto.
+  Qed.
+
+  (* the slashing loop over the sorted intersection, as a recursion *)
+  Fixpoint slash_each (st : BeaconState) (any : bool) (l : list N) : option (BeaconState * bool) :=
+    match l with
+    | [] => Some (st, any)
+    | i :: l' =>
+        v <- nthN (validators st) i ;;
+        if is_slashable_validator v (get_current_epoch E st)
+        then st' <- slash_validator E f st i None ;; slash_each st' true l'
+        else slash_each st any l'
+    end.
+  Definition slash_step (acc : option (BeaconState * bool)) (i : N) : option (BeaconState * bool) :=
+    sb <- acc ;;
+    let '(st, any) := sb in
+    v <- nthN (validators st) i ;;
+    if is_slashable_validator v (get_current_epoch E st)
+    then st' <- slash_validator E f st i None ;; Some (st', true)
+    else Some (st, any).
+  Lemma slash_fold_none l : fold_left slash_step l None = None.
+  Proof. induction l as [|i l IH]; [reflexivity|exact IH]. Qed.
+  Lemma slash_fold_each l : forall st any, fold_left slash_step l (Some (st, any)) = slash_each st any l.
+  Proof.
+    induction l as [|i l IH]; intros st any; [reflexivity|].
+    cbn [fold_left slash_each]. unfold slash_step at 2.
+    destruct (nthN (validators st) i) as [v|]; [|apply slash_fold_none].
+    destruct (is_slashable_validator v (get_current_epoch E st)).
+    - destruct (slash_validator E f st i None) as [st'|]; [apply IH|apply slash_fold_none].
+    - apply IH.
+  Qed.
+
+  Definition slashing_intersection (asl : value) : list N :=
+    let i1 := map vuint (vseq (vfield (vfield asl 0) 0)) in
+    let i2 := map vuint (vseq (vfield (vfield asl 1) 0)) in
+    sort_uniq (filter (fun i => memN i i2) i1).
+
+  Theorem process_attester_slashing_iff st asl st' :
+    let a1 := vfield asl 0 in let a2 := vfield asl 1 in
+    process_attester_slashing E f st asl = Some st' <->
+    ( is_slashable_attestation_data (vfield a1 1) (vfield a2 1) = true
+      /\ is_valid_indexed_attestation E st a1 = true
+      /\ is_valid_indexed_attestation E st a2 = true
+      /\ slash_each st false (slashing_intersection asl) = Some (st', true) ).
+  Proof.
+    cbv zeta. unfold process_attester_slashing, slashing_intersection. cbv zeta.
+    change (fun (acc : option (BeaconState * bool)) (i : N) => _) with slash_step.
+    rewrite slash_fold_each. split.
+    - intros H. inv_opt H. apply some_inj in H. destruct x as [st1 b]. cbn [fst snd] in *. subst.
+      conjs; assumption.
+    - intros (H1 & H2 & H3 & H4). rewrite H1, H2, H3, H4. reflexivity.
+  Qed.
+
+  (* slashable in the state the operation starts from *)
+  Definition slashable_in (st : BeaconState) (i : N) : bool :=
+    match nthN (validators st) i with
+    | Some v => is_slashable_validator v (get_current_epoch E st)
+    | None => false
+    end.
+  Lemma slash_each_any l : forall st any st' b,
+    slash_each st any l = Some (st', b) -> b = any || existsb (slashable_in st) l.
+  Proof.
+    induction l as [|i l IH]; intros st any st' b H; cbn [slash_each existsb] in *.
+    - injection H as _ <-. rewrite orb_false_r. reflexivity.
+    - unfold slashable_in at 1. destruct (nthN (validators st) i) as [v|]; [|discriminate].
+      destruct (is_slashable_validator v (get_current_epoch E st)).
+      + destruct (slash_validator E f st i None) as [st1|]; [|discriminate].
+        apply IH in H. rewrite H. cbn. rewrite orb_true_r. reflexivity.
+      + cbn [orb]. apply IH in H. exact H.
+  Qed.
+
+  (* at least one index of the sorted intersection must be slashable (in the pre-state) *)
+  Corollary process_attester_slashing_needs_slashable st asl st' :
+    process_attester_slashing E f st asl = Some st' ->
+    exists i v, In i (slashing_intersection asl) /\ nthN (validators st) i = Some v
+                /\ is_slashable_validator v (get_current_epoch E st) = true.
+  Proof.
+    intros H. apply process_attester_slashing_iff in H. destruct H as (_ & _ & _ & H).
+    apply slash_each_any in H. cbn [orb] in H. symmetry in H. apply existsb_exists in H.
+    destruct H as (i & Hin & Hs). unfold slashable_in in Hs.
+    destruct (nthN (validators st) i) as [v|] eqn:Hv; [|discriminate]. exists i, v. conjs; assumption.
+  Qed.
+  Corollary process_attester_slashing_rejects st asl :
+    let a1 := vfield asl 0 in let a2 := vfield asl 1 in
+    ( is_slashable_attestation_data (vfield a1 1) (vfield a2 1) = false      (* not a double or surround vote *)
+      \/ is_valid_indexed_attestation E st a1 = false                         (* empty / unsorted / duplicate / unknown index / bad signature *)
+      \/ is_valid_indexed_attestation E st a2 = false
+      \/ (forall i, In i (slashing_intersection asl) -> slashable_in st i = false) ) ->  (* nobody slashable *)
+    process_attester_slashing E f st asl = None.
+  Proof.
+    cbv zeta. intros H. destruct (process_attester_slashing E f st asl) as [st'|] eqn:Hp; [|reflexivity]. exfalso.
+    pose proof (process_attester_slashing_needs_slashable _ _ _ Hp) as (i & v & Hin & Hv & Hs).
+    apply process_attester_slashing_iff in Hp. destruct Hp as (H1 & H2 & H3 & _).
+    destruct H as [H|[H|[H|H]]]; try congruence.
+    specialize (H i Hin). unfold slashable_in in H. rewrite Hv in H. congruence.
+  Qed.
+
+  (* ================= attestation ================= *)
+  (* the validity of an indexed attestation reads only the registry, the fork record and the genesis root *)
+  Lemma is_valid_indexed_attestation_frame st1 st2 ia :
+    validators st1 = validators st2 -> fork_rec st1 = fork_rec st2 ->
+    genesis_validators_root st1 = genesis_validators_root st2 ->
+    is_valid_indexed_attestation E st1 ia = is_valid_indexed_attestation E st2 ia.
+  Proof.
+    intros H1 H2 H3. unfold is_valid_indexed_attestation, get_domain. rewrite H1, H2, H3. reflexivity.
+  Qed.
+  Lemma get_indexed_attestation_frame st1 st2 att :
+    validators st1 = validators st2 -> randao_mixes st1 = randao_mixes st2 ->
+    get_indexed_attestation E st1 att = get_indexed_attestation E st2 att.
+  Proof.
+    intros H1 H2.
+    unfold get_indexed_attestation, get_attesting_indices, get_beacon_committee, get_committee_count_per_slot,
+      get_active_validator_indices, get_seed, get_randao_mix.
+    rewrite H1, H2. reflexivity.
+  Qed.
+
+  Definition expected_source (st : BeaconState) (data : value) : Checkpoint :=
+    if cp_epoch (ad_target data) =? get_current_epoch E st
+    then current_justified_checkpoint st else previous_justified_checkpoint st.
+
+  Ltac altair_case H :=
+    unfold get_attestation_participation_flag_indices in H; cbv zeta in H; inv_opt H;
+    match goal with Hf : (assert _ ;; _) = Some _ |- _ => inv_opt Hf end;
+    match goal with Hs : cp_eqb _ _ = true |- _ => apply cp_eqb_eq in Hs; split; [exact Hs|] end;
+    match goal with
+    | Hi : get_indexed_attestation _ _ _ = Some ?ia, Hv : is_valid_indexed_attestation _ _ ?ia = true |- _ =>
+        exists ia; split; assumption
+    end.
+
+  (* everything acceptance of an attestation implies (all forks) *)
+  Theorem process_attestation_accepts st att st' :
+    let bits := vbits (vfield att 0) in
+    let data := vfield att 1 in
+    let tgt := ad_target data in
+    process_attestation E f st att = Some st' ->
+    ( (cp_epoch tgt = get_previous_epoch E st \/ cp_epoch tgt = get_current_epoch E st)
+      /\ cp_epoch tgt = compute_epoch_at_slot E (ad_slot data)
+      /\ ad_slot data + MIN_ATTESTATION_INCLUSION_DELAY c <= slot st
+      /\ (fork_ge f Deneb = true \/ slot st <= ad_slot data + SLOTS_PER_EPOCH c)
+      /\ ad_index data < get_committee_count_per_slot E st (cp_epoch tgt)
+      /\ (exists committee, get_beacon_committee E st (ad_slot data) (ad_index data) = Some committee
+                            /\ length bits = length committee)
+      /\ ad_source data = expected_source st data
+      /\ (exists ia, get_indexed_attestation E st att = Some ia /\ is_valid_indexed_attestation E st ia = true) ).
+  Proof.
+    cbv zeta. unfold process_attestation. cbv zeta. fold c. intros H. inv_opt H.
+    apply orb_true_iff in Hc. rewrite !N.eqb_eq in Hc. apply N.eqb_eq in Hc0. apply N.leb_le in Hc1.
+    apply orb_true_iff in Hc2. rewrite N.leb_le in Hc2. apply N.ltb_lt in Hc3. apply Nat.eqb_eq in Hc4.
+    assert (Hrest : ad_source (vfield att 1) = expected_source st (vfield att 1)
+             /\ exists ia, get_indexed_attestation E st att = Some ia /\ is_valid_indexed_attestation E st ia = true).
+    { unfold expected_source. destruct f.
+      - (* phase0 *)
+        inv_opt H.
+        destruct (cp_epoch (ad_target (vfield att 1)) =? get_current_epoch E st) eqn:Hcur.
+        + inv_opt Hx1. apply some_inj in Hx1. subst x1. apply cp_eqb_eq in Hc6. split; [exact Hc6|].
+          exists x2. split.
+          * rewrite <- Hx2. apply get_indexed_attestation_frame; reflexivity.
+          * rewrite <- Hc5. apply is_valid_indexed_attestation_frame; reflexivity.
+        + inv_opt Hx1. apply some_inj in Hx1. subst x1. apply cp_eqb_eq in Hc6. split; [exact Hc6|].
+          exists x2. split.
+          * rewrite <- Hx2. apply get_indexed_attestation_frame; reflexivity.
+          * rewrite <- Hc5. apply is_valid_indexed_attestation_frame; reflexivity.
+      - altair_case H.
+      - altair_case H.
+      - altair_case H.
+      - altair_case H. }
+    destruct Hrest as [Hsrc Hia].
+    conjs; try assumption. exists x. split; assumption.
+  Qed.
+
+  (* each cause of rejection *)
+  Theorem process_attestation_rejects st att :
+    let bits := vbits (vfield att 0) in
+    let data := vfield att 1 in
+    let tgt := ad_target data in
+    ( (cp_epoch tgt <> get_previous_epoch E st /\ cp_epoch tgt <> get_current_epoch E st)   (* target epoch not in {prev,cur} *)
+      \/ cp_epoch tgt <> compute_epoch_at_slot E (ad_slot data)                             (* target epoch <> epoch(slot) *)
+      \/ slot st < ad_slot data + MIN_ATTESTATION_INCLUSION_DELAY c                         (* too new *)
+      \/ (fork_ge f Deneb = false /\ ad_slot data + SLOTS_PER_EPOCH c < slot st)            (* too old: dropped from Deneb on *)
+      \/ get_committee_count_per_slot E st (cp_epoch tgt) <= ad_index data                  (* committee index out of range *)
+      \/ (forall committee, get_beacon_committee E st (ad_slot data) (ad_index data) = Some committee ->
+                            length bits <> length committee)                                (* bits length <> committee size *)
+      \/ ad_source data <> expected_source st data                                          (* wrong source checkpoint *)
+      \/ (forall ia, get_indexed_attestation E st att = Some ia ->
+                     is_valid_indexed_attestation E st ia = false) ) ->                     (* empty / invalid aggregate signature *)
+    process_attestation E f st att = None.
+  Proof.
+    cbv zeta. intros H. destruct (process_attestation E f st att) as [st'|] eqn:Hp; [|reflexivity]. exfalso.
+    apply process_attestation_accepts in Hp. cbv zeta in Hp.
+    destruct Hp as (H1 & H2 & H3 & H4 & H5 & (cm & H6 & H6') & H7 & (ia & H8 & H8')).
+    destruct H as [[Ha Hb]|[H|[H|[[Ha Hb]|[H|[H|[H|H]]]]]]].
+    - destruct H1; contradiction.
+    - contradiction.
+    - lia.
+    - destruct H4 as [H4|H4]; [congruence|lia].
+    - lia.
+    - exact (H cm H6 H6').
+    - contradiction.
+    - specialize (H ia H8). congruence.
+  Qed.
+
+  (* ================= deposits ================= *)
+  Lemma is_valid_merkle_branch_iff leaf branch depth index root :
+    is_valid_merkle_branch E leaf branch depth index root = true <->
+    merkle_branch_root E leaf (firstn (N.to_nat depth) branch) 0 index = root.
+  Proof. unfold is_valid_merkle_branch. apply bytes_eqb_eq. Qed.
+
+  Definition deposit_proof_ok (st : BeaconState) (dep : value) : Prop :=
+    merkle_branch_root E (htr DepositDataT (vfield dep 1)) (firstn 33 (map vbytes (vseq (vfield dep 0)))) 0
+                       (eth1_deposit_index st) = e_deposit_root (eth1_data st).
+
+  (* a deposit is accepted iff its Merkle branch (depth 32 + 1 for the length mix-in) at index eth1_deposit_index
+     proves the deposit data against eth1_data.deposit_root; nothing else can reject it *)
+  Theorem process_deposit_iff st dep st' :
+    let data := vfield dep 1 in
+    process_deposit E f st dep = Some st' <->
+    ( deposit_proof_ok st dep
+      /\ st' = apply_deposit E f (st <| eth1_deposit_index := eth1_deposit_index st + 1 |>)
+                 (vbytes (vfield data 0)) (vbytes (vfield data 1)) (vuint (vfield data 2)) (vbytes (vfield data 3)) ).
+  Proof.
+    cbv zeta. unfold process_deposit, deposit_proof_ok. cbv zeta. split.
+    - intros H. inv_opt H. apply some_inj in H. apply is_valid_merkle_branch_iff in Hc.
+      split; [exact Hc|symmetry; exact H].
+    - intros [H1 ->]. apply (proj2 (is_valid_merkle_branch_iff _ _ (DEPOSIT_CONTRACT_TREE_DEPTH + 1) _ _)) in H1.
+      rewrite H1. reflexivity.
+  Qed.
+
+  Definition deposit_sig_ok (pubkey wc : bytes) (amount : N) (sig : bytes) : bool :=
+    bls_verify E pubkey
+      (compute_signing_root E (htr DepositMessageT (VCont [VBytes pubkey; VBytes wc; VUint amount]))
+         (compute_domain E DOMAIN_DEPOSIT (GENESIS_FORK_VERSION c) zero32)) sig.
+
+  (* top-up of a known pubkey: no signature check at all *)
+  Lemma apply_deposit_known st pubkey wc amount sig i :
+    find_pubkey pubkey (validators st) 0 = Some i ->
+    apply_deposit E f st pubkey wc amount sig = increase_balance st i amount.
+  Proof. intros H. unfold apply_deposit. rewrite H. reflexivity. Qed.
+  (* new pubkey with a valid proof of possession: validator appended *)
+  Lemma apply_deposit_new_valid st pubkey wc amount sig :
+    find_pubkey pubkey (validators st) 0 = None -> deposit_sig_ok pubkey wc amount sig = true ->
+    apply_deposit E f st pubkey wc amount sig = add_validator_to_registry E f st pubkey wc amount.
+  Proof. intros H1 H2. unfold apply_deposit. rewrite H1. unfold deposit_sig_ok in H2. fold c. rewrite H2. reflexivity. Qed.
+  (* new pubkey with an INVALID proof of possession: not a rejection, the deposit is skipped *)
+  Lemma apply_deposit_new_invalid_skipped st pubkey wc amount sig :
+    find_pubkey pubkey (validators st) 0 = None -> deposit_sig_ok pubkey wc amount sig = false ->
+    apply_deposit E f st pubkey wc amount sig = st.
+  Proof. intros H1 H2. unfold apply_deposit. rewrite H1. unfold deposit_sig_ok in H2. fold c. rewrite H2. reflexivity. Qed.
+  Corollary process_deposit_invalid_pop_not_rejected st dep :
+    let data := vfield dep 1 in
+    deposit_proof_ok st dep ->
+    find_pubkey (vbytes (vfield data 0)) (validators st) 0 = None ->
+    deposit_sig_ok (vbytes (vfield data 0)) (vbytes (vfield data 1)) (vuint (vfield data 2)) (vbytes (vfield data 3)) = false ->
+    process_deposit E f st dep = Some (st <| eth1_deposit_index := eth1_deposit_index st + 1 |>).
+  Proof.
+    cbv zeta. intros H1 H2 H3. apply process_deposit_iff. split; [exact H1|].
+    symmetry. apply apply_deposit_new_invalid_skipped; assumption.
+  Qed.
+
+  (* find_pubkey is the FIRST index carrying the pubkey *)
+  Lemma find_pubkey_spec pk vs : forall base r,
+    find_pubkey pk vs base = Some r <->
+    exists k v, r = base + N.of_nat k /\ nth_error vs k = Some v /\ v_pubkey v = pk
+                /\ forall j w, (j < k)%nat -> nth_error vs j = Some w -> v_pubkey w <> pk.
+  Proof.
+    induction vs as [|v vs IH]; intros base r; cbn [find_pubkey].
+    - split; [discriminate|]. intros (k & v & _ & H & _). destruct k; discriminate.
+    - destruct (bytes_eqb (v_pubkey v) pk) eqn:Hb.
+      + apply bytes_eqb_eq in Hb. split.
+        * intros [= <-]. exists 0%nat, v. conjs; [lia|reflexivity|exact Hb|]. intros j w Hj. lia.
+        * intros (k & v' & -> & Hk & Hpk & Hfirst). destruct k; [f_equal; lia|].
+          exfalso. apply (Hfirst 0%nat v); [lia|reflexivity|exact Hb].
+      + apply bytes_eqb_neq in Hb. rewrite IH. split.
+        * intros (k & v' & -> & Hk & Hpk & Hfirst). exists (S k), v'. conjs; [lia|exact Hk|exact Hpk|].
+          intros [|j] w Hj Hw; cbn in Hw; [injection Hw as <-; exact Hb|]. apply (Hfirst j w); [lia|exact Hw].
+        * intros (k & v' & -> & Hk & Hpk & Hfirst). destruct k as [|k]; cbn in Hk.
+          -- injection Hk as <-. contradiction.
+          -- exists k, v'. conjs; [lia|exact Hk|exact Hpk|]. intros j w Hj Hw. apply (Hfirst (S j) w); [lia|exact Hw].
+  Qed.
+  Lemma find_pubkey_none pk vs : forall base,
+    find_pubkey pk vs base = None <-> forall v, In v vs -> v_pubkey v <> pk.
+  Proof.
+    induction vs as [|v vs IH]; intros base; cbn [find_pubkey].
+    - split; [intros _ v []|reflexivity].
+    - destruct (bytes_eqb (v_pubkey v) pk) eqn:Hb.
+      + apply bytes_eqb_eq in Hb. split; [discriminate|]. intros H. exfalso. apply (H v); [left; reflexivity|exact Hb].
+      + apply bytes_eqb_neq in Hb. rewrite IH. split.
+        * intros H w [<-|Hw]; [exact Hb|apply H; exact Hw].
+        * intros H w Hw. apply H. right. exact Hw.
+  Qed.
+
+  (* ================= operations: the deposit count ================= *)
+  Theorem process_operations_deposit_count st body st' :
+    process_operations E f st body = Some st' ->
+    N.of_nat (length (vseq (body_get E f body "deposits")))
+      = N.min (MAX_DEPOSITS c) (e_deposit_count (eth1_data st) - eth1_deposit_index st)
+    /\ eth1_deposit_index st <= e_deposit_count (eth1_data st).
+  Proof.
+    unfold process_operations. cbv zeta. fold c. intros H.
+    apply if_some_inv in H. destruct H as [H1 H]. apply if_some_inv in H. destruct H as [H2 _].
+    apply N.eqb_eq in H1. apply N.leb_le in H2. split; assumption.
+  Qed.
+  Corollary process_operations_deposit_count_rejects st body :
+    ( N.of_nat (length (vseq (body_get E f body "deposits")))
+        <> N.min (MAX_DEPOSITS c) (e_deposit_count (eth1_data st) - eth1_deposit_index st)
+      \/ e_deposit_count (eth1_data st) < eth1_deposit_index st ) ->
+    process_operations E f st body = None.
+  Proof.
+    intros H. destruct (process_operations E f st body) as [st'|] eqn:Hp; [|reflexivity]. exfalso.
+    apply process_operations_deposit_count in Hp. destruct Hp as [H1 H2]. destruct H; [contradiction|lia].
+  Qed.
+
+  (* operations are folded left to right, stopping at the first rejection *)
+  Lemma for_ops_nil fn st : for_ops [] fn st = Some st.
+  Proof. reflexivity. Qed.
+  Lemma for_ops_none_acc ops (fn : BeaconState -> value -> option BeaconState) :
+    fold_left (fun acc op => st <- acc ;; fn st op) ops None = None.
+  Proof. induction ops as [|o ops IH]; [reflexivity|exact IH]. Qed.
+  Lemma for_ops_cons op ops fn st :
+    for_ops (op :: ops) fn st = (st1 <- fn st op ;; for_ops ops fn st1).
+  Proof.
+    unfold for_ops. cbn [fold_left]. destruct (fn st op); [reflexivity|apply for_ops_none_acc].
+  Qed.
+  Lemma for_ops_reject_any ops1 op ops2 fn st st1 :
+    for_ops ops1 fn st = Some st1 -> fn st1 op = None -> for_ops (ops1 ++ op :: ops2) fn st = None.
+  Proof.
+    revert st. induction ops1 as [|o ops1 IH]; intros st H1 H2.
+    - rewrite for_ops_nil in H1. injection H1 as <-. cbn [app]. rewrite for_ops_cons, H2. reflexivity.
+    - cbn [app]. rewrite for_ops_cons in *. destruct (fn st o) as [st2|]; [|discriminate]. apply IH; assumption.
+  Qed.
+
+  (* ================= capella: BLS-to-execution change ================= *)
+  Theorem process_bls_to_execution_change_iff st sc st' :
+    let ch := vfield sc 0 in
+    let vi := vuint (vfield ch 0) in
+    let from_pk := vbytes (vfield ch 1) in
+    let to_addr := vbytes (vfield ch 2) in
+    process_bls_to_execution_change E st sc = Some st' <->
+    exists v,
+      nthN (validators st) vi = Some v
+      /\ nth 0 (v_withdrawal_credentials v) 1 = BLS_WITHDRAWAL_PREFIX            (* still a BLS credential *)
+      /\ skipn 1 (v_withdrawal_credentials v) = skipn 1 (Hash E from_pk)          (* credential commits to this key *)
+      /\ bls_verify E from_pk
+           (compute_signing_root E (htr BLSToExecutionChangeT ch)
+              (compute_domain E DOMAIN_BLS_TO_EXECUTION_CHANGE (GENESIS_FORK_VERSION c) (genesis_validators_root st)))
+           (vbytes (vfield sc 1)) = true
+      /\ st' = st <| validators := updN (validators st) vi
+                 (fun v => v <| v_withdrawal_credentials := (ETH1_ADDRESS_WITHDRAWAL_PREFIX :: repeat 0 11) ++ to_addr |>) |>.
+  Proof.
+    cbv zeta. unfold process_bls_to_execution_change. cbv zeta. fold c. split.
+    - intros H. inv_opt H. apply some_inj in H. exists x.
+      apply N.eqb_eq in Hc. apply bytes_eqb_eq in Hc0. conjs; try assumption. symmetry. exact H.
+    - intros (v & H1 & H2 & H3 & H4 & ->). rewrite H1. apply N.eqb_eq in H2. rewrite H2.
+      apply bytes_eqb_eq in H3. rewrite H3, H4. reflexivity.
+  Qed.
+
+  (* ================= altair: sync aggregate ================= *)
+  Definition sync_previous_slot (st : BeaconState) : N := N.max (slot st) 1 - 1.
+  Definition sync_participants (st : BeaconState) (sa : value) : list bytes :=
+    select_bits (vbits (vfield sa 0)) (sc_pubkeys (current_sync_committee st)).
+  (* the message handed to the BLS oracle: signing root of the previous slot's block root under
+     DOMAIN_SYNC_COMMITTEE at the previous slot's epoch *)
+  Definition sync_signing_root (st : BeaconState) (root : bytes) : bytes :=
+    compute_signing_root E root
+      (get_domain E st DOMAIN_SYNC_COMMITTEE (compute_epoch_at_slot E (sync_previous_slot st))).
+
+  Theorem process_sync_aggregate_sig st sa st' :
+    process_sync_aggregate E st sa = Some st' ->
+    exists root,
+      get_block_root_at_slot E st (sync_previous_slot st) = Some root
+      /\ (sync_participants st sa = [] -> vbytes (vfield sa 1) = G2_POINT_AT_INFINITY)
+      /\ (sync_participants st sa <> [] ->
+          bls_fast_aggregate_verify E (sync_participants st sa) (sync_signing_root st root) (vbytes (vfield sa 1)) = true).
+  Proof.
+    unfold process_sync_aggregate, sync_participants, sync_signing_root, sync_previous_slot. cbv zeta.
+    intros H. apply bind_some_inv in H. destruct H as (root & Hroot & H).
+    apply if_some_inv in H. destruct H as [Hsig _].
+    exists root. split; [exact Hroot|].
+    destruct (select_bits (vbits (vfield sa 0)) (sc_pubkeys (current_sync_committee st))) as [|p ps].
+    - split; [intros _; apply bytes_eqb_eq; exact Hsig|intros Hne; congruence].
+    - split; [discriminate|intros _; exact Hsig].
+  Qed.
+  Corollary process_sync_aggregate_rejects st sa :
+    ( get_block_root_at_slot E st (sync_previous_slot st) = None
+      \/ (sync_participants st sa = [] /\ vbytes (vfield sa 1) <> G2_POINT_AT_INFINITY)
+      \/ (sync_participants st sa <> [] /\
+          forall root, get_block_root_at_slot E st (sync_previous_slot st) = Some root ->
+            bls_fast_aggregate_verify E (sync_participants st sa) (sync_signing_root st root) (vbytes (vfield sa 1)) = false) ) ->
+    process_sync_aggregate E st sa = None.
+  Proof.
+    intros H. destruct (process_sync_aggregate E st sa) as [st'|] eqn:Hp; [|reflexivity]. exfalso.
+    apply process_sync_aggregate_sig in Hp. destruct Hp as (root & H1 & H2 & H3).
+    destruct H as [H|[[Ha Hb]|[Ha Hb]]].
+    - congruence.
+    - apply Hb, H2, Ha.
+    - specialize (H3 Ha). specialize (Hb root H1). congruence.
+  Qed.
+
+  (* ================= capella: withdrawals ================= *)
+  Lemma withdrawals_match_iff (got : list value) (expected : list (N * N * bytes * N)) :
+    Nat.eqb (length got) (length expected)
+      && forallb (fun p => value_eqb (fst p) (withdrawal_to_value (snd p))) (combine got expected) = true
+    <-> got = map withdrawal_to_value expected.
+  Proof.
+    revert expected. induction got as [|g got IH]; intros [|e expected]; cbn [length Nat.eqb combine forallb map andb fst snd].
+    - split; reflexivity.
+    - split; discriminate.
+    - split; discriminate.
+    - specialize (IH expected). rewrite andb_true_iff in IH.
+      rewrite !andb_true_iff. rewrite value_eqb_eq. split.
+      + intros (Hl & -> & Hf). f_equal. apply IH. split; assumption.
+      + intros [= -> Hg]. apply IH in Hg. destruct Hg as [Hl Hf]. conjs; [exact Hl|reflexivity|exact Hf].
+  Qed.
+
+  Definition withdrawals_applied (st : BeaconState) : BeaconState :=
+    let expected := get_expected_withdrawals E st in
+    let st := fold_left (fun st w => let '(_, vi, _, amt) := w in decrease_balance st vi amt) expected st in
+    let n := N.of_nat (length (validators st)) in
+    let st := match rev expected with
+              | (i, _, _, _) :: _ => st <| next_withdrawal_index := i + 1 |>
+              | [] => st end in
+    match rev expected with
+    | (_, vi, _, _) :: _ =>
+        if N.of_nat (length expected) =? MAX_WITHDRAWALS_PER_PAYLOAD c
+        then st <| next_withdrawal_validator_index := (vi + 1) mod n |>
+        else st <| next_withdrawal_validator_index := (next_withdrawal_validator_index st + MAX_VALIDATORS_PER_WITHDRAWALS_SWEEP c) mod n |>
+    | [] => st <| next_withdrawal_validator_index := (next_withdrawal_validator_index st + MAX_VALIDATORS_PER_WITHDRAWALS_SWEEP c) mod n |>
+    end.
+
+  (* accepted iff the payload's withdrawals equal get_expected_withdrawals element-wise *)
+  Theorem process_withdrawals_iff st payload st' :
+    process_withdrawals E f st payload = Some st' <->
+    ( vseq (pl_get E f payload "withdrawals") = map withdrawal_to_value (get_expected_withdrawals E st)
+      /\ st' = withdrawals_applied st ).
+  Proof.
+    unfold process_withdrawals, withdrawals_applied. cbv zeta. fold c.
+    set (got := vseq (pl_get E f payload "withdrawals")). set (expected := get_expected_withdrawals E st).
+    pose proof (withdrawals_match_iff got expected) as Hm. rewrite andb_true_iff in Hm. split.
+    - intros H. inv_opt H. apply some_inj in H. split; [apply Hm; split; assumption|symmetry; exact H].
+    - intros [H1 ->]. apply Hm in H1. destruct H1 as [Ha Hb]. rewrite Ha, Hb. reflexivity.
+  Qed.
+
+  (* ================= bellatrix+: execution payload ================= *)
+  Definition payload_commitments (body : value) : list bytes :=
+    if fork_ge f Deneb then map vbytes (vseq (body_get E f body "blob_kzg_commitments")) else [].
+
+  Theorem process_execution_payload_iff st body st' :
+    let payload := body_get E f body "execution_payload" in
+    process_execution_payload E f st body = Some st' <->
+    ( (* parent hash: skipped only before Capella while the merge is not complete *)
+      ( (fork_ge f Capella = false /\ is_merge_transition_complete E f st = false)
+        \/ vbytes (pl_get E f payload "parent_hash")
+           = vbytes (vget (HeaderT E f) (latest_execution_payload_header st) "block_hash") )
+      /\ vbytes (pl_get E f payload "prev_randao") = get_randao_mix E st (get_current_epoch E st)
+      /\ vuint (pl_get E f payload "timestamp") = compute_timestamp_at_slot E st (slot st)
+      /\ N.of_nat (length (payload_commitments body)) <= (if fork_ge f Deneb then MAX_BLOBS_PER_BLOCK c else 0)
+      /\ engine_accepts E payload (map (kzg_commitment_to_versioned_hash E) (payload_commitments body))
+                        (h_parent_root (latest_block_header st)) = true
+      /\ st' = st <| latest_execution_payload_header := payload_to_header E f payload |> ).
+  Proof.
+    cbv zeta. unfold process_execution_payload, payload_commitments. cbv zeta. fold c. split.
+    - intros H. inv_opt H. apply some_inj in H.
+      apply orb_true_iff in Hc. rewrite bytes_eqb_eq in Hc.
+      apply bytes_eqb_eq in Hc0. apply N.eqb_eq in Hc1. apply N.leb_le in Hc2.
+      conjs; try assumption; [|symmetry; exact H].
+      destruct Hc as [Hc|Hc]; [left|right; exact Hc].
+      destruct (fork_ge f Capella); [discriminate|]. apply negb_true_iff in Hc. split; [reflexivity|exact Hc].
+    - intros (H1 & H2 & H3 & H4 & H5 & ->).
+      assert (Hp : (if fork_ge f Capella then false else negb (is_merge_transition_complete E f st))
+                   || bytes_eqb (vbytes (pl_get E f (body_get E f body "execution_payload") "parent_hash"))
+                        (vbytes (vget (HeaderT E f) (latest_execution_payload_header st) "block_hash")) = true).
+      { destruct H1 as [[Ha Hb]|H1].
+        - rewrite Ha, Hb. reflexivity.
+        - apply bytes_eqb_eq in H1. rewrite H1. apply orb_true_r. }
+      rewrite Hp. apply bytes_eqb_eq in H2. rewrite H2. apply N.eqb_eq in H3. rewrite H3.
+      apply N.leb_le in H4. rewrite H4, H5. reflexivity.
+  Qed.
+
+  (* ================= randao ================= *)
+  Theorem process_randao_iff st body st' :
+    let epoch := get_current_epoch E st in
+    let reveal := vbytes (body_get E f body "randao_reveal") in
+    process_randao E f st body = Some st' <->
+    exists p proposer,
+      get_beacon_proposer_index E st = Some p
+      /\ nthN (validators st) p = Some proposer
+      /\ bls_verify E (v_pubkey proposer)
+           (compute_signing_root E (htr u64 (VUint epoch)) (get_domain E st DOMAIN_RANDAO epoch)) reveal = true
+      /\ st' = st <| randao_mixes := setN (randao_mixes st) (epoch mod EPOCHS_PER_HISTORICAL_VECTOR c)
+                                          (xor_bytes (get_randao_mix E st epoch) (Hash E reveal)) |>.
+  Proof.
+    cbv zeta. unfold process_randao. cbv zeta. fold c. split.
+    - intros H. inv_opt H. apply some_inj in H. exists x, x0. conjs; try assumption. symmetry; exact H.
+    - intros (p & pr & H1 & H2 & H3 & ->). rewrite H1, H2, H3. reflexivity.
+  Qed.
+  (* ================= composition: operations and the whole block ================= *)
+  Theorem process_operations_iff st body st' :
+    let deposits := vseq (body_get E f body "deposits") in
+    process_operations E f st body = Some st' <->
+    ( N.of_nat (length deposits) = N.min (MAX_DEPOSITS c) (e_deposit_count (eth1_data st) - eth1_deposit_index st)
+      /\ eth1_deposit_index st <= e_deposit_count (eth1_data st)
+      /\ exists s1 s2 s3 s4 s5,
+           for_ops (vseq (body_get E f body "proposer_slashings")) (process_proposer_slashing E f) st = Some s1
+           /\ for_ops (vseq (body_get E f body "attester_slashings")) (process_attester_slashing E f) s1 = Some s2
+           /\ for_ops (vseq (body_get E f body "attestations")) (process_attestation E f) s2 = Some s3
+           /\ for_ops deposits (process_deposit E f) s3 = Some s4
+           /\ for_ops (vseq (body_get E f body "voluntary_exits")) (process_voluntary_exit E f) s4 = Some s5
+           /\ (if fork_ge f Capella
+               then for_ops (vseq (body_get E f body "bls_to_execution_changes")) (process_bls_to_execution_change E) s5
+               else Some s5) = Some st' ).
+  Proof.
+    cbv zeta. unfold process_operations. cbv zeta. fold c. split.
+    - intros H. inv_opt H. apply N.eqb_eq in Hc. apply N.leb_le in Hc0.
+      conjs; try assumption. exists x, x0, x1, x2, x3. conjs; assumption.
+    - intros (H1 & H2 & s1 & s2 & s3 & s4 & s5 & H3 & H4 & H5 & H6 & H7 & H8).
+      apply N.eqb_eq in H1. apply N.leb_le in H2. rewrite H1, H2, H3, H4, H5, H6, H7. exact H8.
+  Qed.
+
+  Definition payload_stage (st : BeaconState) (body : value) : option BeaconState :=
+    match f with
+    | Phase0 | Altair => Some st
+    | Bellatrix => if is_execution_enabled E f st body then process_execution_payload E f st body else Some st
+    | _ => st <- process_withdrawals E f st (body_get E f body "execution_payload") ;; process_execution_payload E f st body
+    end.
+  Theorem process_block_iff st blk st' :
+    let body := vfield blk 4 in
+    process_block E f st blk = Some st' <->
+    exists s1 s2 s3 s4,
+      process_block_header E f st blk = Some s1
+      /\ payload_stage s1 body = Some s2
+      /\ process_randao E f s2 body = Some s3
+      /\ process_operations E f (process_eth1_data E f s3 body) body = Some s4
+      /\ (if fork_ge f Altair then process_sync_aggregate E s4 (body_get E f body "sync_aggregate") else Some s4) = Some st'.
+  Proof.
+    cbv zeta. unfold process_block, payload_stage. cbv zeta. split.
+    - intros H. inv_opt H. exists x, x0, x1, x2. conjs; assumption.
+    - intros (s1 & s2 & s3 & s4 & H1 & H2 & H3 & H4 & H5). rewrite H1, H2, H3, H4. exact H5.
+  Qed.
+  (* a rejection by any stage rejects the block *)
+  Corollary process_block_rejects st blk :
+    let body := vfield blk 4 in
+    ( process_block_header E f st blk = None
+      \/ (exists s1, process_block_header E f st blk = Some s1 /\ payload_stage s1 body = None)
+      \/ (exists s1 s2, process_block_header E f st blk = Some s1 /\ payload_stage s1 body = Some s2
+                        /\ process_randao E f s2 body = None)
+      \/ (exists s1 s2 s3, process_block_header E f st blk = Some s1 /\ payload_stage s1 body = Some s2
+                        /\ process_randao E f s2 body = Some s3
+                        /\ process_operations E f (process_eth1_data E f s3 body) body = None)
+      \/ (exists s1 s2 s3 s4, process_block_header E f st blk = Some s1 /\ payload_stage s1 body = Some s2
+                        /\ process_randao E f s2 body = Some s3
+                        /\ process_operations E f (process_eth1_data E f s3 body) body = Some s4
+                        /\ fork_ge f Altair = true
+                        /\ process_sync_aggregate E s4 (body_get E f body "sync_aggregate") = None) ) ->
+    process_block E f st blk = None.
+  Proof.
+    cbv zeta. intros H. destruct (process_block E f st blk) as [st'|] eqn:Hp; [|reflexivity]. exfalso.
+    apply process_block_iff in Hp. cbv zeta in Hp. destruct Hp as (s1 & s2 & s3 & s4 & H1 & H2 & H3 & H4 & H5).
+    destruct H as [H|[(t1 & Ha & Hb)|[(t1 & t2 & Ha & Hb & Hc)|[(t1 & t2 & t3 & Ha & Hb & Hc & Hd)|(t1 & t2 & t3 & t4 & Ha & Hb & Hc & Hd & He & Hf)]]]].
+    - congruence.
+    - congruence.
+    - rewrite Ha in H1. injection H1 as <-. rewrite Hb in H2. injection H2 as <-. congruence.
+    - rewrite Ha in H1. injection H1 as <-. rewrite Hb in H2. injection H2 as <-.
+      rewrite Hc in H3. injection H3 as <-. congruence.
+    - rewrite Ha in H1. injection H1 as <-. rewrite Hb in H2. injection H2 as <-.
+      rewrite Hc in H3. injection H3 as <-. rewrite Hd in H4. injection H4 as <-. rewrite He in H5. congruence.
+  Qed.
 End Rules.
+
+(* ================= state_transition: block signature and state root ================= *)
+Section TransitionRules.
+  Variable E : Env.
+  Let c := cfg E.
+
+  Theorem state_transition_iff f st bf sb validate f' st' :
+    let blk := vfield sb 0 in
+    state_transition E f st bf sb validate = Some (f', st') <->
+    exists st1,
+      process_slots E f st (vuint (vfield blk 0)) = Some (f', st1)
+      /\ fork_idx f' = fork_idx bf
+      /\ (validate = true -> verify_block_signature E f' st1 sb = true)
+      /\ process_block E f' st1 blk = Some st'
+      /\ (validate = true -> vbytes (vfield blk 3) = state_root E f' st').
+  Proof.
+    cbv zeta. unfold state_transition. cbv zeta. split.
+    - intros H. apply bind_some_inv in H. destruct H as ([f1 st1] & Hs & H).
+      inv_opt H. apply some_inj in H. injection H as <- <-.
+      exists st1. apply N.eqb_eq in Hc. conjs; try assumption.
+      + intros ->. exact Hc0.
+      + intros ->. cbn [negb orb] in Hc1. apply bytes_eqb_eq in Hc1. exact Hc1.
+    - intros (st1 & H1 & H2 & H3 & H4 & H5). rewrite H1. apply N.eqb_eq in H2. rewrite H2.
+      destruct validate; cbn [negb orb].
+      + rewrite (H3 eq_refl), H4. specialize (H5 eq_refl). apply bytes_eqb_eq in H5. rewrite H5. reflexivity.
+      + rewrite H4. reflexivity.
+  Qed.
+
+  (* with validate_result, the block signature is checked for the proposer's key under
+     get_domain(st1, DOMAIN_BEACON_PROPOSER, current_epoch(st1)) of the state AFTER process_slots, the proposer is
+     the one the state computes, and the final state root must equal block.state_root *)
+  Theorem state_transition_sig f st bf sb f' st' :
+    let blk := vfield sb 0 in
+    state_transition E f st bf sb true = Some (f', st') ->
+    exists st1 proposer,
+      process_slots E f st (vuint (vfield blk 0)) = Some (f', st1)
+      /\ fork_idx f' = fork_idx bf
+      /\ get_beacon_proposer_index E st1 = Some (vuint (vfield blk 1))
+      /\ nthN (validators st1) (vuint (vfield blk 1)) = Some proposer
+      /\ bls_verify E (v_pubkey proposer)
+           (compute_signing_root E (htr E (BeaconBlockT c f') blk)
+              (get_domain E st1 DOMAIN_BEACON_PROPOSER (get_current_epoch E st1)))
+           (vbytes (vfield sb 1)) = true
+      /\ process_block E f' st1 blk = Some st'
+      /\ vbytes (vfield blk 3) = state_root E f' st'.
+  Proof.
+    cbv zeta. intros H. apply state_transition_iff in H. destruct H as (st1 & H1 & H2 & H3 & H4 & H5).
+    specialize (H3 eq_refl). specialize (H5 eq_refl).
+    unfold verify_block_signature in H3. cbv zeta in H3.
+    destruct (nthN (validators st1) (vuint (vfield (vfield sb 0) 1))) as [proposer|] eqn:Hp; [|discriminate].
+    exists st1, proposer. conjs; try assumption.
+    unfold process_block in H4. cbv zeta in H4. apply bind_some_inv in H4. destruct H4 as (st2 & Hh & _).
+    apply process_block_header_iff in Hh. tauto.
+  Qed.
+
+  Corollary state_transition_rejects f st bf sb :
+    let blk := vfield sb 0 in
+    (forall f' st1, process_slots E f st (vuint (vfield blk 0)) = Some (f', st1) ->
+       fork_idx f' <> fork_idx bf                                                     (* block of another fork *)
+       \/ verify_block_signature E f' st1 sb = false                                 (* wrong key / domain / root *)
+       \/ process_block E f' st1 blk = None                                          (* any operation rejected *)
+       \/ (forall st', process_block E f' st1 blk = Some st' -> vbytes (vfield blk 3) <> state_root E f' st')) ->
+    state_transition E f st bf sb true = None.
+  Proof.
+    cbv zeta. intros H. destruct (state_transition E f st bf sb true) as [[f' st']|] eqn:Hp; [|reflexivity]. exfalso.
+    apply state_transition_iff in Hp. destruct Hp as (st1 & H1 & H2 & H3 & H4 & H5).
+    specialize (H3 eq_refl). specialize (H5 eq_refl).
+    destruct (H f' st1 H1) as [H0|[H0|[H0|H0]]]; try congruence. exact (H0 st' H4 H5).
+  Qed.
+  (* process_slots itself refuses a target slot that is not in the future (wrong slot) *)
+  Lemma process_slots_not_future f st target : target <= slot st -> process_slots E f st target = None.
+  Proof. intros H. unfold process_slots. apply N.ltb_ge in H. rewrite H. reflexivity. Qed.
+End TransitionRules.
+
+(* ================= every signature check: the message fixes (domain type, fork version, genesis root, object) ========= *)
+Section CrossDomain.
+  Variable E : Env.
+  Let c := cfg E.
+  Notation htr := (htr E).
+
+  Definition fork_version_at (st : BeaconState) (epoch : N) : bytes :=
+    if epoch <? f_epoch (fork_rec st) then f_previous_version (fork_rec st) else f_current_version (fork_rec st).
+  Lemma get_domain_shape st dt epoch :
+    get_domain E st dt epoch = compute_domain E dt (fork_version_at st epoch) (genesis_validators_root st).
+  Proof. reflexivity. Qed.
+
+  (* "sig is a signature by pk over the object root under (domain type, fork version, genesis validators root)" *)
+  Definition signed_by (pk obj_root sig dt version gvr : bytes) : Prop :=
+    bls_verify E pk (compute_signing_root E obj_root (compute_domain E dt version gvr)) sig = true.
+  Definition agg_signed_by (pks : list bytes) (obj_root sig dt version gvr : bytes) : Prop :=
+    bls_fast_aggregate_verify E pks (compute_signing_root E obj_root (compute_domain E dt version gvr)) sig = true.
+
+  Lemma block_sig_shape f st bf sb f' st' :
+    let blk := vfield sb 0 in
+    state_transition E f st bf sb true = Some (f', st') ->
+    exists st1 proposer,
+      process_slots E f st (vuint (vfield blk 0)) = Some (f', st1)
+      /\ nthN (validators st1) (vuint (vfield blk 1)) = Some proposer
+      /\ signed_by (v_pubkey proposer) (htr (BeaconBlockT c f') blk) (vbytes (vfield sb 1))
+           DOMAIN_BEACON_PROPOSER (fork_version_at st1 (get_current_epoch E st1)) (genesis_validators_root st1).
+  Proof.
+    cbv zeta. intros H. apply state_transition_sig in H. destruct H as (st1 & p & H1 & _ & _ & H4 & H5 & _).
+    exists st1, p. conjs; assumption.
+  Qed.
+
+  Lemma randao_sig_shape f st body st' :
+    process_randao E f st body = Some st' ->
+    exists p proposer,
+      get_beacon_proposer_index E st = Some p /\ nthN (validators st) p = Some proposer
+      /\ signed_by (v_pubkey proposer) (htr u64 (VUint (get_current_epoch E st))) (vbytes (body_get E f body "randao_reveal"))
+           DOMAIN_RANDAO (fork_version_at st (get_current_epoch E st)) (genesis_validators_root st).
+  Proof.
+    intros H. apply process_randao_iff in H. destruct H as (p & pr & H1 & H2 & H3 & _). exists p, pr. conjs; assumption.
+  Qed.
+
+  Lemma proposer_slashing_sig_shape f st ps st' :
+    process_proposer_slashing E f st ps = Some st' ->
+    exists proposer,
+      nthN (validators st) (vuint (vfield (vfield (vfield ps 0) 0) 1)) = Some proposer
+      /\ forall sh, sh = vfield ps 0 \/ sh = vfield ps 1 ->
+           signed_by (v_pubkey proposer) (htr BeaconBlockHeaderT (vfield sh 0)) (vbytes (vfield sh 1))
+             DOMAIN_BEACON_PROPOSER (fork_version_at st (compute_epoch_at_slot E (vuint (vfield (vfield sh 0) 0))))
+             (genesis_validators_root st).
+  Proof.
+    intros H. apply process_proposer_slashing_iff in H. cbv zeta in H.
+    destruct H as (_ & _ & _ & p & H1 & _ & H2 & H3 & _). exists p. split; [exact H1|].
+    intros sh [->| ->]; assumption.
+  Qed.
+
+  Definition indexed_att_signed (st : BeaconState) (ia : value) : Prop :=
+    exists pubkeys,
+      all_some (map (fun i => option_map v_pubkey (nthN (validators st) i)) (map vuint (vseq (vfield ia 0)))) = Some pubkeys
+      /\ agg_signed_by pubkeys (htr AttestationDataT (vfield ia 1)) (vbytes (vfield ia 2))
+           DOMAIN_BEACON_ATTESTER (fork_version_at st (cp_epoch (ad_target (vfield ia 1)))) (genesis_validators_root st).
+  Lemma indexed_att_sig_shape st ia : is_valid_indexed_attestation E st ia = true -> indexed_att_signed st ia.
+  Proof.
+    intros H. apply is_valid_indexed_attestation_iff in H. cbv zeta in H. destruct H as (_ & _ & pks & H1 & H2).
+    exists pks. split; assumption.
+  Qed.
+  Lemma attester_slashing_sig_shape f st asl st' :
+    process_attester_slashing E f st asl = Some st' ->
+    indexed_att_signed st (vfield asl 0) /\ indexed_att_signed st (vfield asl 1).
+  Proof.
+    intros H. apply process_attester_slashing_iff in H. cbv zeta in H. destruct H as (_ & H1 & H2 & _).
+    split; apply indexed_att_sig_shape; assumption.
+  Qed.
+  Lemma attestation_sig_shape f st att st' :
+    process_attestation E f st att = Some st' ->
+    exists ia, get_indexed_attestation E st att = Some ia /\ indexed_att_signed st ia.
+  Proof.
+    intros H. apply process_attestation_accepts in H. cbv zeta in H.
+    destruct H as (_ & _ & _ & _ & _ & _ & _ & ia & H1 & H2). exists ia. split; [exact H1|].
+    apply indexed_att_sig_shape. exact H2.
+  Qed.
+
+  Lemma voluntary_exit_sig_shape f st sve st' :
+    process_voluntary_exit E f st sve = Some st' ->
+    exists v,
+      nthN (validators st) (vuint (vfield (vfield sve 0) 1)) = Some v
+      /\ signed_by (v_pubkey v) (htr VoluntaryExitT (vfield sve 0)) (vbytes (vfield sve 1))
+           DOMAIN_VOLUNTARY_EXIT
+           (if fork_ge f Deneb then CAPELLA_FORK_VERSION c else fork_version_at st (vuint (vfield (vfield sve 0) 0)))
+           (genesis_validators_root st).
+  Proof.
+    intros H. apply process_voluntary_exit_iff in H. cbv zeta in H.
+    destruct H as (v & H1 & _ & _ & _ & _ & H2 & _). exists v. split; [exact H1|].
+    unfold signed_by. unfold exit_domain in H2. fold c in H2. destruct (fork_ge f Deneb); exact H2.
+  Qed.
+
+  Lemma bls_change_sig_shape st sc st' :
+    process_bls_to_execution_change E st sc = Some st' ->
+    signed_by (vbytes (vfield (vfield sc 0) 1)) (htr BLSToExecutionChangeT (vfield sc 0)) (vbytes (vfield sc 1))
+      DOMAIN_BLS_TO_EXECUTION_CHANGE (GENESIS_FORK_VERSION c) (genesis_validators_root st).
+  Proof.
+    intros H. apply process_bls_to_execution_change_iff in H. cbv zeta in H.
+    destruct H as (v & _ & _ & _ & H & _). exact H.
+  Qed.
+
+  Lemma sync_aggregate_sig_shape st sa st' :
+    process_sync_aggregate E st sa = Some st' ->
+    sync_participants st sa <> [] ->
+    exists root,
+      get_block_root_at_slot E st (sync_previous_slot st) = Some root
+      /\ agg_signed_by (sync_participants st sa) root (vbytes (vfield sa 1))
+           DOMAIN_SYNC_COMMITTEE (fork_version_at st (compute_epoch_at_slot E (sync_previous_slot st)))
+           (genesis_validators_root st).
+  Proof.
+    intros H Hne. apply process_sync_aggregate_sig in H. destruct H as (root & H1 & _ & H3).
+    exists root. split; [exact H1|]. exact (H3 Hne).
+  Qed.
+
+  (* deposits: a NEW validator enters the registry only with a proof of possession under the fork-agnostic
+     deposit domain (GENESIS_FORK_VERSION, zero genesis root) *)
+  Lemma deposit_sig_shape f st pubkey wc amount sig :
+    find_pubkey pubkey (validators st) 0 = None ->
+    apply_deposit E f st pubkey wc amount sig <> st ->
+    signed_by pubkey (htr DepositMessageT (VCont [VBytes pubkey; VBytes wc; VUint amount])) sig
+      DOMAIN_DEPOSIT (GENESIS_FORK_VERSION c) zero32.
+  Proof.
+    intros H1 H2. unfold signed_by.
+    destruct (deposit_sig_ok E pubkey wc amount sig) eqn:Hs; [exact Hs|].
+    exfalso. apply H2. apply apply_deposit_new_invalid_skipped; assumption.
+  Qed.
+
+  Definition cross_domain_shape : Prop :=
+    (forall f st bf sb f' st', state_transition E f st bf sb true = Some (f', st') ->
+       exists st1 proposer,
+         process_slots E f st (vuint (vfield (vfield sb 0) 0)) = Some (f', st1)
+         /\ nthN (validators st1) (vuint (vfield (vfield sb 0) 1)) = Some proposer
+         /\ signed_by (v_pubkey proposer) (htr (BeaconBlockT c f') (vfield sb 0)) (vbytes (vfield sb 1))
+              DOMAIN_BEACON_PROPOSER (fork_version_at st1 (get_current_epoch E st1)) (genesis_validators_root st1))
+    /\ (forall f st body st', process_randao E f st body = Some st' ->
+          exists p proposer,
+            get_beacon_proposer_index E st = Some p /\ nthN (validators st) p = Some proposer
+            /\ signed_by (v_pubkey proposer) (htr u64 (VUint (get_current_epoch E st))) (vbytes (body_get E f body "randao_reveal"))
+                 DOMAIN_RANDAO (fork_version_at st (get_current_epoch E st)) (genesis_validators_root st))
+    /\ (forall f st ps st', process_proposer_slashing E f st ps = Some st' ->
+          exists proposer,
+            nthN (validators st) (vuint (vfield (vfield (vfield ps 0) 0) 1)) = Some proposer
+            /\ forall sh, sh = vfield ps 0 \/ sh = vfield ps 1 ->
+                 signed_by (v_pubkey proposer) (htr BeaconBlockHeaderT (vfield sh 0)) (vbytes (vfield sh 1))
+                   DOMAIN_BEACON_PROPOSER (fork_version_at st (compute_epoch_at_slot E (vuint (vfield (vfield sh 0) 0))))
+                   (genesis_validators_root st))
+    /\ (forall f st asl st', process_attester_slashing E f st asl = Some st' ->
+          indexed_att_signed st (vfield asl 0) /\ indexed_att_signed st (vfield asl 1))
+    /\ (forall f st att st', process_attestation E f st att = Some st' ->
+          exists ia, get_indexed_attestation E st att = Some ia /\ indexed_att_signed st ia)
+    /\ (forall f st sve st', process_voluntary_exit E f st sve = Some st' ->
+          exists v,
+            nthN (validators st) (vuint (vfield (vfield sve 0) 1)) = Some v
+            /\ signed_by (v_pubkey v) (htr VoluntaryExitT (vfield sve 0)) (vbytes (vfield sve 1))
+                 DOMAIN_VOLUNTARY_EXIT
+                 (if fork_ge f Deneb then CAPELLA_FORK_VERSION c else fork_version_at st (vuint (vfield (vfield sve 0) 0)))
+                 (genesis_validators_root st))
+    /\ (forall st sc st', process_bls_to_execution_change E st sc = Some st' ->
+          signed_by (vbytes (vfield (vfield sc 0) 1)) (htr BLSToExecutionChangeT (vfield sc 0)) (vbytes (vfield sc 1))
+            DOMAIN_BLS_TO_EXECUTION_CHANGE (GENESIS_FORK_VERSION c) (genesis_validators_root st))
+    /\ (forall st sa st', process_sync_aggregate E st sa = Some st' -> sync_participants st sa <> [] ->
+          exists root,
+            get_block_root_at_slot E st (sync_previous_slot st) = Some root
+            /\ agg_signed_by (sync_participants st sa) root (vbytes (vfield sa 1))
+                 DOMAIN_SYNC_COMMITTEE (fork_version_at st (compute_epoch_at_slot E (sync_previous_slot st)))
+                 (genesis_validators_root st))
+    /\ (forall f st pubkey wc amount sig,
+          find_pubkey pubkey (validators st) 0 = None -> apply_deposit E f st pubkey wc amount sig <> st ->
+          signed_by pubkey (htr DepositMessageT (VCont [VBytes pubkey; VBytes wc; VUint amount])) sig
+            DOMAIN_DEPOSIT (GENESIS_FORK_VERSION c) zero32).
+
+  Theorem cross_domain_rejected_shape : cross_domain_shape.
+  Proof.
+    unfold cross_domain_shape. conjs.
+    - intros. eapply block_sig_shape; eassumption.
+    - intros. eapply randao_sig_shape; eassumption.
+    - intros. eapply proposer_slashing_sig_shape; eassumption.
+    - intros. eapply attester_slashing_sig_shape; eassumption.
+    - intros. eapply attestation_sig_shape; eassumption.
+    - intros. eapply voluntary_exit_sig_shape; eassumption.
+    - intros. eapply bls_change_sig_shape; eassumption.
+    - intros. eapply sync_aggregate_sig_shape; eassumption.
+    - intros. eapply deposit_sig_shape; eassumption.
+  Qed.
+End CrossDomain.
